@@ -22,6 +22,8 @@
 import MajoranaVerif.Proofs.Mvp3Spec
 import MajoranaVerif.Props.C01
 import MajoranaVerif.Proofs.MsiCoherence
+import MajoranaVerif.Proofs.Mvp60LdRun
+import MajoranaVerif.Proofs.Mvp60LdWitness
 open GoInt Model Model.Seq Model.Mmu Model.Mvp3 LineCache Proofs.Mmu Proofs.Mvp3 Proofs.Refine
 
 namespace Props.C05
@@ -313,5 +315,184 @@ example : (Model.Msi.run Msi.cohInit Msi.cohActions).l1 0 7 = some (lastWrite (f
     have := h r hr hs hm
     rw [hl] at this
     exact this
+
+end Props.C05
+
+/-! ## MVP-6.0 (package R60d): memory reads — the L3 cache is transparent, for every number of execute and write units
+
+The class `Model.Mvp60.StraightLineLdRet`: straight-line programs with `lb`/`lh`/`lw` (no store, no branch or jump, no
+`div`/`rem`) that may end with a `ret` (a `ret` is allowed as the LAST instruction of the program text only);
+`Model.Mvp60.StraightLineLd` is its sub-class without `ret`.  With loads the machine completes instructions OUT OF ORDER: a
+load waits in its execute unit (50 ticks on an L3 hit, 309 on a miss, longer when another unit is already fetching its line)
+while the other units execute younger instructions; the write bus then carries results in completion order.  What keeps this
+correct is in-order ISSUE with the three scoreboard checks of `isDataHazard3` (`Proofs.Mvp60Ld.BackO`): an instruction is
+issued only when no instruction in flight writes a register it reads or writes, and none reads a register it writes; so every
+instruction reads the register values of the unpipelined run, a register nobody in flight still has to write holds the
+unpipelined run's value, and two results on the write bus never write the same register.  The L3 (it sits in the L1D slot of
+`Model.Mmu`) stays coherent with the ONE flat memory (`Proofs.Mmu.Coh`; without stores every line is clean, an evicted line
+is written back unchanged): a lookup returns the flat-memory bytes (`Proofs.Mvp60Ld.l3_lookup`), a miss announces the line in
+`pendings`, a second request for that line waits, the fill makes it resident (`Proofs.Mvp60Ld.l3_fill`); the final `flush`
+leaves the flat memory.  A `ret` is issued like any instruction, may be executed while older loads still wait, and puts the
+machine into its two drain loops (busy execute units, then write units): at their end everything older has been written.
+`div`/`rem` are excluded because their error value would have to be ordered against the results around it; stores and
+branches are the classes of KF-ooo-mem / KF-ooo-flush-load and are not claimed; a `ret` FOLLOWED by further instructions is
+excluded because the machine WAS wrong there with two and more units (R60-defect-2, fixed in /repo meanwhile:
+`mvp60_ret_overtaken_fixed` below; the proof of the general case is not done). -/
+namespace Props.C05
+
+/-- **C05 for MVP-6.0 on straight-line programs with memory reads and a final `ret` (safety), every number `K` of execute
+and write units.**  Every parsed program of `Model.Mvp60.StraightLineLdRet`, every initial state related to a specification
+machine (memory not larger than 2^31 − 64 bytes) with fresh scoreboards, every fuel and tick budget: if the run of the
+MVP-6.0 model ends (not with a Go panic) and the specification run ends within its fuel, they end the same way (`ret`, or
+past the last instruction), the final registers of the model are the specification's, and the memory — after the final
+flush of L3 — is the specification's: untouched. -/
+theorem mvp60_readonly_ret_correct (app : App) (hw : WfApp app) (hcls : Model.Mvp60.StraightLineLdRet app = true)
+    (ctx : Model.Context) (m : Spec.Machine) (hR : Rel ctx m) (hmsz : m.mem.size + 64 ≤ 2 ^ 31)
+    (hpw : ∀ r, GoMap.get1 ctx.PendingWriteRegisters r = 0) (hpr : ∀ r, GoMap.get1 ctx.PendingReadRegisters r = 0)
+    (K fuel ticks : Nat) (hk : Halt) (hh : (Model.Mvp60.run app ctx K K ticks).halt = some hk) (hnp : ∀ w, hk ≠ .panic w) :
+    Props.C01.Agree4 (Spec.run (specProg app) m fuel) hk (Model.Mvp60.run app ctx K K ticks).final.ctx := by
+  have h1 := Props.C01.mvp1_correct app hw ctx m hR fuel
+  unfold Props.C01.Agree at h1
+  unfold Props.C01.Agree4
+  -- the unpipelined machine stops where the model stopped, in the same way
+  have main : (∀ why, (Spec.run (specProg app) m fuel).stop ≠ .notWf why) →
+      ∃ (n : Nat) (aN : Model.Seq.Arch), (hk = .offEnd ∨ hk = .ret) ∧
+        (runMvp1 app ⟨ctx, 0#32⟩ (n + (0 + 1))).halt = some hk ∧ (runMvp1 app ⟨ctx, 0#32⟩ (n + (0 + 1))).final = aN ∧
+        (∀ reg, GoMap.get1 (Model.Mvp60.run app ctx K K ticks).final.ctx.Registers reg = GoMap.get1 aN.ctx.Registers reg) ∧
+        (Model.Mvp60.run app ctx K K ticks).final.ctx.Memory = ctx.Memory ∧ aN.ctx.Memory = ctx.Memory := by
+    intro hwf
+    obtain ⟨hp, hl⟩ := Proofs.Mvp60Ld.progLd_of_spec app hw hcls ctx m hR hmsz fuel hwf
+    obtain ⟨n, aN, hN, hpc, hcase, hregs, hmem, hmemN⟩ := Proofs.Mvp60Ld.mvp60_ld_refines app ctx hp hl K ticks hk hpw hpr hh hnp
+    have key : ∃ c, stepArch Proofs.Mvp4.dc app aN = .halt hk c := by
+      rcases hcase with ⟨rfl, rfl⟩ | ⟨rfl, i, hi, hisret⟩
+      · exact Proofs.Mvp60Sl.stepArch_offEnd app aN app.instrs.length hpc hw.small (Nat.le_refl _) (Nat.le_refl _)
+      · exact Proofs.Mvp60Ld.ret_step app hw.small aN n i hpc hi hisret
+    obtain ⟨c, hc⟩ := key
+    obtain ⟨g1, g2⟩ := Proofs.Mvp4.run_halts mvp1Fetch app hN hc 0
+    exact ⟨n, aN, by rcases hcase with ⟨rfl, _⟩ | ⟨rfl, _⟩ <;> simp, g1, g2, hregs, hmem, hmemN⟩
+  cases hstop : (Spec.run (specProg app) m fuel).stop with
+  | notWf w => trivial
+  | ret =>
+    obtain ⟨n, aN, _, g1, g2, hregs, hmem, hmemN⟩ := main (by intro why hc; rw [hstop] at hc; cases hc)
+    rw [hstop] at h1
+    simp only at h1 ⊢
+    obtain ⟨rfl, u2⟩ := Proofs.Mvp4.run_halt_unique mvp1Fetch mvp1Fetch app ⟨ctx, 0#32⟩ _ fuel hk .ret g1 h1.1
+    have hfin : aN = (runMvp1 app ⟨ctx, 0#32⟩ fuel).final := by rw [← g2]; exact u2
+    refine ⟨rfl, fun r => ?_, ?_⟩
+    · rw [hregs r, hfin]; exact h1.2.1.regs r
+    · rw [hmem, ← h1.2.1.mem, ← hfin, hmemN]
+  | error er =>
+    obtain ⟨n, aN, hcase, g1, _⟩ := main (by intro why hc; rw [hstop] at hc; cases hc)
+    rw [hstop] at h1
+    simp only at h1 ⊢
+    have := (Proofs.Mvp4.run_halt_unique mvp1Fetch mvp1Fetch app ⟨ctx, 0#32⟩ _ fuel hk .err g1 h1.1).1
+    rcases hcase with rfl | rfl <;> cases this
+  | offEnd =>
+    obtain ⟨n, aN, _, g1, g2, hregs, hmem, hmemN⟩ := main (by intro why hc; rw [hstop] at hc; cases hc)
+    rw [hstop] at h1
+    simp only at h1 ⊢
+    obtain ⟨rfl, u2⟩ := Proofs.Mvp4.run_halt_unique mvp1Fetch mvp1Fetch app ⟨ctx, 0#32⟩ _ fuel hk .offEnd g1 h1.1
+    have hfin : aN = (runMvp1 app ⟨ctx, 0#32⟩ fuel).final := by rw [← g2]; exact u2
+    refine ⟨rfl, fun r => ?_, ?_⟩
+    · rw [hregs r, hfin]; exact h1.2.1.regs r
+    · rw [hmem, ← h1.2.1.mem, ← hfin, hmemN]
+
+/-- the class without `ret` is a sub-class -/
+theorem mvp60_ld_sub (app : App) (h : Model.Mvp60.StraightLineLd app = true) : Model.Mvp60.StraightLineLdRet app = true := by
+  simp only [Model.Mvp60.StraightLineLd, Model.Mvp60.StraightLineLdRet, Bool.and_eq_true, List.all_eq_true] at h ⊢
+  refine ⟨fun i hi => h i (List.dropLast_subset _ hi), fun i hi => ?_⟩
+  have := h i hi
+  simp only [Model.Mvp60.ldInstr, Model.Mvp60.ldrInstr, Bool.and_eq_true, Bool.not_eq_true'] at this ⊢
+  exact ⟨⟨this.1.1.1, this.1.1.2⟩, this.2⟩
+
+/-- **C05 for MVP-6.0 on straight-line programs with memory reads (safety), every number `K` of execute and write units**:
+the case without `ret` of `mvp60_readonly_ret_correct` (the run ends past the last instruction). -/
+theorem mvp60_readonly_correct (app : App) (hw : WfApp app) (hcls : Model.Mvp60.StraightLineLd app = true)
+    (ctx : Model.Context) (m : Spec.Machine) (hR : Rel ctx m) (hmsz : m.mem.size + 64 ≤ 2 ^ 31)
+    (hpw : ∀ r, GoMap.get1 ctx.PendingWriteRegisters r = 0) (hpr : ∀ r, GoMap.get1 ctx.PendingReadRegisters r = 0)
+    (K fuel ticks : Nat) (hk : Halt) (hh : (Model.Mvp60.run app ctx K K ticks).halt = some hk) (hnp : ∀ w, hk ≠ .panic w) :
+    Props.C01.Agree4 (Spec.run (specProg app) m fuel) hk (Model.Mvp60.run app ctx K K ticks).final.ctx :=
+  mvp60_readonly_ret_correct app hw (mvp60_ld_sub app hcls) ctx m hR hmsz hpw hpr K fuel ticks hk hh hnp
+
+/-- Non-vacuity: `Proofs.Mvp60LdWitness.ldApp` — two `lw` of one cold line (on two units the second finds the line in
+`pendings` and waits in `prepare` while the first waits for memory: `ld_pending`), an `add` of their results, an `lb` that hits
+the now resident line, an `lh` of a second line — is well-formed and in the class, its specification run ends past the end,
+and the model with 1, 2 and 4 units ends past the end with the registers of MVP-1 and the memory untouched -/
+example : WfApp Proofs.Mvp60LdWitness.ldApp ∧ Model.Mvp60.StraightLineLd Proofs.Mvp60LdWitness.ldApp = true ∧
+    (Spec.run (specProg Proofs.Mvp60LdWitness.ldApp)
+      { regs := Array.replicate 32 0#32, mem := ((List.range 128).map (fun i => BitVec.ofNat 8 (i + 1))).toArray } 50).stop = .offEnd ∧
+    ((Model.Mvp60.run Proofs.Mvp60LdWitness.ldApp Proofs.Mvp60LdWitness.ctxL 2 2 320).final.pendings.length,
+      (Model.Mvp60.run Proofs.Mvp60LdWitness.ldApp Proofs.Mvp60LdWitness.ctxL 2 2 320).final.eus.map Proofs.Mvp60LdWitness.coCode,
+      (Model.Mvp60.run Proofs.Mvp60LdWitness.ldApp Proofs.Mvp60LdWitness.ctxL 2 2 320).final.executed) = (1, [3, 1], 0) ∧
+    Proofs.Mvp60LdWitness.obsL (Model.Mvp60.run Proofs.Mvp60LdWitness.ldApp Proofs.Mvp60LdWitness.ctxL 1 1 3000).halt
+        (Model.Mvp60.run Proofs.Mvp60LdWitness.ldApp Proofs.Mvp60LdWitness.ctxL 1 1 3000).final.ctx =
+      Proofs.Mvp60LdWitness.obsL (runMvp1 Proofs.Mvp60LdWitness.ldApp ⟨Proofs.Mvp60LdWitness.ctxL, 0⟩ 20).halt
+        (runMvp1 Proofs.Mvp60LdWitness.ldApp ⟨Proofs.Mvp60LdWitness.ctxL, 0⟩ 20).final.ctx ∧
+    Proofs.Mvp60LdWitness.obsL (Model.Mvp60.run Proofs.Mvp60LdWitness.ldApp Proofs.Mvp60LdWitness.ctxL 2 2 3000).halt
+        (Model.Mvp60.run Proofs.Mvp60LdWitness.ldApp Proofs.Mvp60LdWitness.ctxL 2 2 3000).final.ctx =
+      Proofs.Mvp60LdWitness.obsL (runMvp1 Proofs.Mvp60LdWitness.ldApp ⟨Proofs.Mvp60LdWitness.ctxL, 0⟩ 20).halt
+        (runMvp1 Proofs.Mvp60LdWitness.ldApp ⟨Proofs.Mvp60LdWitness.ctxL, 0⟩ 20).final.ctx ∧
+    Proofs.Mvp60LdWitness.obsL (Model.Mvp60.run Proofs.Mvp60LdWitness.ldApp Proofs.Mvp60LdWitness.ctxL 4 4 3000).halt
+        (Model.Mvp60.run Proofs.Mvp60LdWitness.ldApp Proofs.Mvp60LdWitness.ctxL 4 4 3000).final.ctx =
+      Proofs.Mvp60LdWitness.obsL (runMvp1 Proofs.Mvp60LdWitness.ldApp ⟨Proofs.Mvp60LdWitness.ctxL, 0⟩ 20).halt
+        (runMvp1 Proofs.Mvp60LdWitness.ldApp ⟨Proofs.Mvp60LdWitness.ctxL, 0⟩ 20).final.ctx :=
+  ⟨Proofs.Mvp60LdWitness.ld_wf, Proofs.Mvp60LdWitness.ld_class.1, Proofs.Mvp60LdWitness.ld_spec, Proofs.Mvp60LdWitness.ld_pending,
+   Proofs.Mvp60LdWitness.ld_p1.trans Proofs.Mvp60LdWitness.ld_seq.symm, Proofs.Mvp60LdWitness.ld_p2.trans Proofs.Mvp60LdWitness.ld_seq.symm,
+   Proofs.Mvp60LdWitness.ld_p4.trans Proofs.Mvp60LdWitness.ld_seq.symm⟩
+
+/-- Non-vacuity of `mvp60_readonly_ret_correct`: `Proofs.Mvp60LdWitness.ldrApp` (`ldApp` followed by `ret`) is well-formed and
+in the class (not in the class without `ret`), its specification run ends with `ret`; on two units the `ret` is executed while
+the last load still waits for memory — after 800 ticks the machine is in its first drain loop with one busy unit
+(`ldr_drain`) — and the model with 1, 2 and 4 units ends with `ret`, the registers of MVP-1 and the memory untouched -/
+example : WfApp Proofs.Mvp60LdWitness.ldrApp ∧ Model.Mvp60.StraightLineLdRet Proofs.Mvp60LdWitness.ldrApp = true ∧
+    Model.Mvp60.StraightLineLd Proofs.Mvp60LdWitness.ldrApp = false ∧
+    (Spec.run (specProg Proofs.Mvp60LdWitness.ldrApp)
+      { regs := Array.replicate 32 0#32, mem := ((List.range 128).map (fun i => BitVec.ofNat 8 (i + 1))).toArray } 50).stop = .ret ∧
+    ((Model.Mvp60.run Proofs.Mvp60LdWitness.ldrApp Proofs.Mvp60LdWitness.ctxL 2 2 800).final.mode == .retA,
+      (Model.Mvp60.run Proofs.Mvp60LdWitness.ldrApp Proofs.Mvp60LdWitness.ctxL 2 2 800).final.eus.map Proofs.Mvp60LdWitness.coCode) =
+      (true, [3, 0]) ∧
+    Proofs.Mvp60LdWitness.obsL (Model.Mvp60.run Proofs.Mvp60LdWitness.ldrApp Proofs.Mvp60LdWitness.ctxL 1 1 3000).halt
+        (Model.Mvp60.run Proofs.Mvp60LdWitness.ldrApp Proofs.Mvp60LdWitness.ctxL 1 1 3000).final.ctx =
+      Proofs.Mvp60LdWitness.obsL (runMvp1 Proofs.Mvp60LdWitness.ldrApp ⟨Proofs.Mvp60LdWitness.ctxL, 0⟩ 20).halt
+        (runMvp1 Proofs.Mvp60LdWitness.ldrApp ⟨Proofs.Mvp60LdWitness.ctxL, 0⟩ 20).final.ctx ∧
+    Proofs.Mvp60LdWitness.obsL (Model.Mvp60.run Proofs.Mvp60LdWitness.ldrApp Proofs.Mvp60LdWitness.ctxL 2 2 3000).halt
+        (Model.Mvp60.run Proofs.Mvp60LdWitness.ldrApp Proofs.Mvp60LdWitness.ctxL 2 2 3000).final.ctx =
+      Proofs.Mvp60LdWitness.obsL (runMvp1 Proofs.Mvp60LdWitness.ldrApp ⟨Proofs.Mvp60LdWitness.ctxL, 0⟩ 20).halt
+        (runMvp1 Proofs.Mvp60LdWitness.ldrApp ⟨Proofs.Mvp60LdWitness.ctxL, 0⟩ 20).final.ctx ∧
+    Proofs.Mvp60LdWitness.obsL (Model.Mvp60.run Proofs.Mvp60LdWitness.ldrApp Proofs.Mvp60LdWitness.ctxL 4 4 3000).halt
+        (Model.Mvp60.run Proofs.Mvp60LdWitness.ldrApp Proofs.Mvp60LdWitness.ctxL 4 4 3000).final.ctx =
+      Proofs.Mvp60LdWitness.obsL (runMvp1 Proofs.Mvp60LdWitness.ldrApp ⟨Proofs.Mvp60LdWitness.ctxL, 0⟩ 20).halt
+        (runMvp1 Proofs.Mvp60LdWitness.ldrApp ⟨Proofs.Mvp60LdWitness.ctxL, 0⟩ 20).final.ctx :=
+  ⟨Proofs.Mvp60LdWitness.ldr_wf, Proofs.Mvp60LdWitness.ldr_class.1, Proofs.Mvp60LdWitness.ldr_class.2, Proofs.Mvp60LdWitness.ldr_spec,
+   Proofs.Mvp60LdWitness.ldr_drain,
+   Proofs.Mvp60LdWitness.ldr_p1.trans Proofs.Mvp60LdWitness.ldr_seq.symm, Proofs.Mvp60LdWitness.ldr_p2.trans Proofs.Mvp60LdWitness.ldr_seq.symm,
+   Proofs.Mvp60LdWitness.ldr_p4.trans Proofs.Mvp60LdWitness.ldr_seq.symm⟩
+
+/-- **R60-defect-2 is fixed: nothing behind a `ret` is executed.**  `Proofs.Mvp60LdWitness.retApp` = `addi t2,t2,0;
+lw t0,0(zero); lw t1,64(zero); lw t3,128(zero); lw t4,192(zero); ret; addi a0,zero,1` on 256 bytes: every instruction is of the
+class but the `ret` is not the last one (so `mvp60_readonly_ret_correct` does not speak about it); the unpipelined machine and
+the MVP-6.0 model with 1, 2 and 4 execute/write units return with `a0 = 0` (registers `t0 t1 a0`).  Before /repo's fix of
+`decodeUnit.cycle` (it went on decoding in the cycle in which it saw the `ret`; `Model.Mvp60.decodeLoop` mirrors the fix) the
+machines mvp6-0 … mvp7-1 and this model returned with `a0 = 1` on two and on four units: the `addi` was decoded in the same cycle
+as the `ret`, issued one cycle after it, both waited on the execute bus while every unit held a load, two units became free in
+one cycle, the second one executed the `addi`, and the drain loops after the `ret` wrote its result
+(/verif/.work/reports/R60-defect-2.md). -/
+theorem mvp60_ret_overtaken_fixed :
+    Proofs.Mvp60LdWitness.retApp.instrs.all Model.Mvp60.ldrInstr = true ∧
+    Model.Mvp60.StraightLineLdRet Proofs.Mvp60LdWitness.retApp = false ∧
+    Proofs.Mvp60LdWitness.obsM (runMvp1 Proofs.Mvp60LdWitness.retApp ⟨Proofs.Mvp60LdWitness.ctxM, 0⟩ 20).halt
+        (runMvp1 Proofs.Mvp60LdWitness.retApp ⟨Proofs.Mvp60LdWitness.ctxM, 0⟩ 20).final.ctx =
+      (some .ret, [0x04030201#32, 0x44434241#32, 0#32]) ∧
+    Proofs.Mvp60LdWitness.obsM (Model.Mvp60.run Proofs.Mvp60LdWitness.retApp Proofs.Mvp60LdWitness.ctxM 1 1 3000).halt
+        (Model.Mvp60.run Proofs.Mvp60LdWitness.retApp Proofs.Mvp60LdWitness.ctxM 1 1 3000).final.ctx =
+      (some .ret, [0x04030201#32, 0x44434241#32, 0#32]) ∧
+    Proofs.Mvp60LdWitness.obsM (Model.Mvp60.run Proofs.Mvp60LdWitness.retApp Proofs.Mvp60LdWitness.ctxM 2 2 3000).halt
+        (Model.Mvp60.run Proofs.Mvp60LdWitness.retApp Proofs.Mvp60LdWitness.ctxM 2 2 3000).final.ctx =
+      (some .ret, [0x04030201#32, 0x44434241#32, 0#32]) ∧
+    Proofs.Mvp60LdWitness.obsM (Model.Mvp60.run Proofs.Mvp60LdWitness.retApp Proofs.Mvp60LdWitness.ctxM 4 4 3000).halt
+        (Model.Mvp60.run Proofs.Mvp60LdWitness.retApp Proofs.Mvp60LdWitness.ctxM 4 4 3000).final.ctx =
+      (some .ret, [0x04030201#32, 0x44434241#32, 0#32]) :=
+  ⟨Proofs.Mvp60LdWitness.ret_class.1, Proofs.Mvp60LdWitness.ret_class.2, Proofs.Mvp60LdWitness.ret_seq, Proofs.Mvp60LdWitness.ret_p1,
+   Proofs.Mvp60LdWitness.ret_p2, Proofs.Mvp60LdWitness.ret_p4⟩
 
 end Props.C05
